@@ -188,3 +188,26 @@ func FW[T any](p *T, site string) *T {
 }
 
 type fieldKey uintptr
+
+// OW / OR: a method that writes / only reads is called on an object of another
+// package that is not safe for concurrent use (math/rand.Rand, bytes.Buffer, …),
+// reached through p.  Recorded for the happens-before race detector; p is returned.
+func OW[T any](p *T, site string) *T {
+	if sched.Current() != nil && p != nil {
+		a := uintptr(unsafe.Pointer(p))
+		sched.Access(a, "foreign:"+mapName(site), site, true, p)
+		sched.Did(objKey(a), "w", true)
+	}
+	return p
+}
+
+func OR[T any](p *T, site string) *T {
+	if sched.Current() != nil && p != nil {
+		a := uintptr(unsafe.Pointer(p))
+		sched.Access(a, "foreign:"+mapName(site), site, false, p)
+		sched.Did(objKey(a), "r", false)
+	}
+	return p
+}
+
+type objKey uintptr
